@@ -18,7 +18,7 @@ import AmqModel.Lemmas.ConnC18
    * `c.dead = d`, and a dead state owns nothing: no slot, no channel-0 I/O end, no pending
      allocation / blocked-listener request, no blocked listener (`DeadOK`);
 4. its preservation by every primitive, by `process`, by every event handler, by `kill`, by the
-   client operations; `invD_reachable`;
+   client operations; `di_reachable` (`DI c := InvD c.dead [] c`);
 5. what a dead state looks like (`dead_links`, `dead_cqs`, `dead_lst`);
 6. the channel-0 reply queue under `process` (`R0`), and "never `.hang`" for every I/O step.
 
@@ -202,7 +202,9 @@ theorem InvD.mono {d : Bool} {X Y : List Nat} {c : Conn} (h : InvD d X c) (hXY :
   ff := h.ff
   dz := h.dz
 
-/-! ### Primitives -/
+/-! ## 4. Preservation
+
+### Primitives -/
 
 /-- Replacing a link: no I/O end comes back, a dropped I/O end leaves an empty FIFO; a link of
     `Y` whose I/O end is dropped here leaves the set. -/
